@@ -1006,6 +1006,12 @@ def _eval_case(ctx: Ctx, c: dict):
             bad = cname_violation(za)
             if bad is not None:
                 ctx.fail("C09/read/cname-and-other-data", f"after loading, {bad} holds a CNAME and other data", rep)
+    elif k == "routes":
+        eval_routes_case(ctx, c, rep)
+    elif k == "directives":
+        eval_directives_case(ctx, c, rep)
+    elif k == "rrsets":
+        eval_rrsets_case(ctx, c, rep)
     elif k == "zone":
         eval_zone_case(ctx, c, rep)
     else:
@@ -1482,6 +1488,255 @@ class IncludeCase:
         return a
 
 
+
+# ------------------------------------------------------------------------------------------------
+# entry points and routes: Zone.to_text / to_file / to_styled_file (text, binary, path), dns.zone.from_text (str, bytes,
+# file object; origin as Name or str) / from_file (path, file object), zone_factory, allow_directives, read_rrsets
+# ------------------------------------------------------------------------------------------------
+def _scratch():
+    import tempfile
+    return tempfile.mkdtemp(prefix="c09rt-")
+
+
+def _outcome(f):
+    try:
+        return ("ok", f())
+    except BaseException as e:  # noqa: BLE001
+        return ("err " + err_family(e), None)
+
+
+def eval_routes_case(ctx, c, rep):
+    """every way of writing a zone gives the same text, every way of reading that text gives the same zone (TTLs included),
+    and the legacy keyword arguments of to_text/to_file mean what the corresponding ZoneStyle fields mean"""
+    import io
+    import shutil
+    import dns.versioned
+    origin_labels = [bytes.fromhex(x) for x in c["origin"]]
+    O = dns.name.Name(origin_labels)
+    rel, rrel, kw = c["rel"], c["rrel"], c["kw"]
+    z = build_zone(origin_labels, rel, c["recs"])
+    nl = {"n": "\n", "none": None, "bn": b"\n"}[kw["nl"]]
+    args = dict(sorted=kw["sorted"], relativize=kw["relativize"], nl=nl, want_comments=kw["want_comments"], want_origin=kw["want_origin"])
+    # what the keywords mean, written out independently (on this platform every nl value above is a line feed)
+    expect_style = dns.zone.ZoneStyle(sorted=kw["sorted"], relativize=kw["relativize"], origin=O if kw["relativize"] else None,
+                                      nl="\n", want_comments=kw["want_comments"], want_origin=kw["want_origin"])
+    how, base = _outcome(lambda: z.to_styled_text(expect_style))
+    ctx.count("routes.write")
+    if base is None:
+        ctx.fail("C09/routes/write/to_styled_text-raises", f"{how} for keywords {kw}", rep)
+        return
+    d = _scratch()
+    try:
+        path = os.path.join(d, "out.zone")
+
+        def via_bytes(fn):
+            b = io.BytesIO()
+            fn(b)
+            return b.getvalue().decode("utf-8")
+
+        def via_text(fn):
+            t = io.StringIO()
+            fn(t)
+            return t.getvalue()
+
+        def via_path(fn):
+            fn(path)
+            with open(path, "rb") as f:
+                return f.read().decode("utf-8")
+        routes = {
+            "to_styled_file/text": lambda: via_text(lambda f: z.to_styled_file(expect_style, f)),
+            "to_styled_file/binary": lambda: via_bytes(lambda f: z.to_styled_file(expect_style, f)),
+            "to_styled_file/path": lambda: via_path(lambda f: z.to_styled_file(expect_style, f)),
+            "to_file/text": lambda: via_text(lambda f: z.to_file(f, **args)),
+            "to_file/binary": lambda: via_bytes(lambda f: z.to_file(f, **args)),
+            "to_file/path": lambda: via_path(lambda f: z.to_file(f, **args)),
+            "to_file/positional": lambda: via_bytes(lambda f: z.to_file(f, args["sorted"], args["relativize"], nl, args["want_comments"], args["want_origin"])),
+            "to_file/style-overrides": lambda: via_bytes(lambda f: z.to_file(f, not kw["sorted"], True, None, True, False, style=expect_style)),
+        }
+        if not isinstance(nl, bytes):
+            routes["to_text"] = lambda: z.to_text(**args)
+            routes["to_text/positional"] = lambda: z.to_text(args["sorted"], args["relativize"], nl, args["want_comments"], args["want_origin"])
+        for name, fn in routes.items():
+            how, got = _outcome(fn)
+            if got != base:
+                ctx.fail(f"C09/routes/write/{name}/differs",
+                         f"{name} with {kw} gave {how} {got!r}, the style these keywords denote gives {base!r}", rep)
+        # --- reading the text back through every door
+        with open(path, "wb") as f:
+            f.write(base.encode("utf-8"))
+        give = None if (kw["want_origin"] and c.get("drop_origin")) else O
+        how, zA = _outcome(lambda: dns.zone.from_text(base, origin=give, relativize=rrel, check_origin=False))
+        ctx.count("routes.read")
+        if zA is None:
+            ctx.fail("C09/routes/read/from_text-raises", f"{how} on text written by the library {base!r}", rep)
+            return
+        zr = build_zone(origin_labels, rrel, c["recs"])
+        if not zones_equal(zA, zr):
+            ctx.fail("C09/routes/read/differs-from-zone", f"{base!r} (keywords {kw}) does not load back to the zone written", rep)
+        gs = None if give is None else give.to_text()
+        readers = {
+            "from_text/origin-str": lambda: dns.zone.from_text(base, origin=gs, relativize=rrel, check_origin=False),
+            "from_text/bytes": lambda: dns.zone.from_text(base.encode("utf-8"), origin=give, relativize=rrel, check_origin=False),
+            "from_text/file-object": lambda: dns.zone.from_text(io.StringIO(base), origin=give, relativize=rrel, check_origin=False),
+            "from_text/positional": lambda: dns.zone.from_text(base, give, IN, rrel, dns.zone.Zone, None, False, False),
+            "from_file/path": lambda: dns.zone.from_file(path, origin=give, relativize=rrel, check_origin=False),
+            "from_file/path-positional": lambda: dns.zone.from_file(path, gs, IN, rrel, dns.zone.Zone, None, True, False),
+            "from_file/file-object": lambda: _with_open(path, lambda f: dns.zone.from_file(f, origin=give, relativize=rrel, check_origin=False)),
+            "from_text/versioned": lambda: dns.zone.from_text(base, origin=give, relativize=rrel, check_origin=False, zone_factory=dns.versioned.Zone),
+        }
+        for name, fn in readers.items():
+            how, zb = _outcome(fn)
+            if zb is None or not zones_equal(zA, zb):
+                ctx.fail(f"C09/routes/read/{name}/differs", f"{name} gave {how}, a zone other than from_text(str) on {base!r}", rep)
+        # check_origin default (True) on a zone that has SOA and NS at the apex
+        how, zc = _outcome(lambda: dns.zone.from_file(path, origin=give, relativize=rrel))
+        if zc is None or not zones_equal(zA, zc):
+            ctx.fail("C09/routes/read/from_file/defaults/differs", f"from_file with default check_origin gave {how} on {base!r}", rep)
+    finally:
+        shutil.rmtree(d, ignore_errors=True)
+
+
+def _with_open(path, fn):
+    with open(path, encoding="utf-8") as f:
+        return fn(f)
+
+
+def eval_directives_case(ctx, c, rep):
+    """allow_directives / allow_include: which `$` lines are directives follows the set given, and nothing else changes"""
+    import shutil
+    origin_labels = [bytes.fromhex(x) for x in c["origin"]]
+    O = dns.name.Name(origin_labels)
+    rel = c["rel"]
+    body = bytes.fromhex(c["body"]).decode("latin-1")          # record lines, no directive, no `$`
+    ctx.count("directives")
+
+    def load(text, **kw):
+        return _outcome(lambda: dns.zone.from_text(text, origin=O, relativize=rel, check_origin=False, **kw))
+    how0, z0 = load(body)
+    if z0 is None:
+        ctx.fail("C09/directives/plain-body-raises", f"{how0} on {body!r}", rep)
+        return
+
+    def same(name, text, expect_zone, **kw):
+        how, zz = load(text, **kw)
+        if expect_zone is None:
+            if zz is not None or not how.startswith("err SyntaxError"):
+                ctx.fail(f"C09/directives/{name}/accepted", f"{how} (expected a SyntaxError) on {text!r} with {kw}", rep)
+        elif zz is None or not zones_equal(expect_zone, zz):
+            ctx.fail(f"C09/directives/{name}/differs", f"{how} on {text!r} with {kw}", rep)
+    # 1. a body without `$` loads alike whatever directives are allowed
+    for name, kw in (("none-allowed", {"allow_directives": False}), ("empty-iterable", {"allow_directives": []}),
+                     ("some-allowed", {"allow_directives": ["$TTL"]}), ("all-listed", {"allow_directives": ["ttl", "$origin", "Generate"]})):
+        same("no-dollar/" + name, body, z0, **kw)
+    # 2. an owner that starts with `$`: a record when no directive is allowed, the same record as its escaped spelling
+    dollar = "$host 300 IN A 192.0.2.9\n$TTL 300 IN TXT \"not a directive\"\n"
+    escaped = "\\$host 300 IN A 192.0.2.9\n\\$TTL 300 IN TXT \"not a directive\"\n"
+    howe, ze = load(body + escaped)
+    if ze is None:
+        ctx.fail("C09/directives/escaped-dollar-raises", f"{howe} on {body + escaped!r}", rep)
+    else:
+        same("dollar-owner/none-allowed", body + dollar, ze, allow_directives=False)
+        same("dollar-owner/empty-iterable", body + dollar, ze, allow_directives=())
+        same("dollar-owner/default", body + "$host 300 IN A 192.0.2.9\n", None)
+        same("dollar-owner/some-allowed", body + "$host 300 IN A 192.0.2.9\n", None, allow_directives=["$TTL"])
+    # 3. listed directives work (any case, with or without `$`), unlisted ones are refused
+    withttl = "$TTL 1234\n" + body + "late A 192.0.2.10\n"
+    howt, zt = load(withttl)
+    if zt is None:
+        ctx.fail("C09/directives/ttl-directive-raises", f"{howt} on {withttl!r}", rep)
+    else:
+        for name, kw in (("dollar-upper", ["$TTL"]), ("lower-no-dollar", ["ttl"]), ("mixed", ["$Ttl", "ORIGIN"])):
+            same("listed/" + name, withttl, zt, allow_directives=kw)
+        same("unlisted", withttl, None, allow_directives=["$ORIGIN"])
+        same("unlisted-generate", body + "$GENERATE 1-2 g$ 60 A 10.9.9.$\n", None, allow_directives=["$TTL", "$ORIGIN"])
+    gen = body + "$GENERATE 1-2 g$ 60 A 10.9.9.$\n"
+    howg, zg = load(gen)
+    if zg is not None:
+        same("listed/generate", gen, zg, allow_directives=["generate"])
+    # 4. $INCLUDE: allowed by from_file's default and by an explicit list, not by from_text's default
+    d = _scratch()
+    try:
+        inc = os.path.join(d, "inc.zone")
+        main = os.path.join(d, "main.zone")
+        with open(inc, "w", encoding="latin-1", newline="") as f:
+            f.write("inc1 60 IN A 192.0.2.20\n")
+        mtext = body + f"$INCLUDE {inc}\nafter 60 IN A 192.0.2.21\n"
+        with open(main, "w", encoding="latin-1", newline="") as f:
+            f.write(mtext)
+        inlined = body + "inc1 60 IN A 192.0.2.20\nafter 60 IN A 192.0.2.21\n"
+        howi, zi = load(inlined)
+        if zi is not None:
+            same("include/from_text-default", mtext, None)
+            same("include/from_text-allowed", mtext, zi, allow_include=True)
+            same("include/listed-ignores-allow_include", mtext, zi, allow_directives=["$INCLUDE"], allow_include=False)
+            same("include/not-listed", mtext, None, allow_directives=["$TTL"], allow_include=True)
+            same("include/none-allowed", mtext, None, allow_directives=False, allow_include=True)
+            how, zf = _outcome(lambda: dns.zone.from_file(main, origin=O, relativize=rel, check_origin=False))
+            if zf is None or not zones_equal(zi, zf):
+                ctx.fail("C09/directives/include/from_file-default/differs", f"from_file with its defaults gave {how} on {mtext!r}", rep)
+            how, zf = _outcome(lambda: dns.zone.from_file(main, origin=O, relativize=rel, check_origin=False, allow_include=False))
+            if zf is not None or not how.startswith("err SyntaxError"):
+                ctx.fail("C09/directives/include/from_file-disallowed/accepted", f"from_file(allow_include=False) gave {how} on {mtext!r}", rep)
+    finally:
+        shutil.rmtree(d, ignore_errors=True)
+
+
+def eval_rrsets_case(ctx, c, rep):
+    """dns.zonefile.read_rrsets (the other user of Reader._rr_line) reads the same records as dns.zone.from_text, with the
+    forced / default fields meaning what the explicit spelling means"""
+    origin_labels = [bytes.fromhex(x) for x in c["origin"]]
+    O = dns.name.Name(origin_labels)
+    rel = c["rel"]
+    rows = c["rows"]          # [owner text, ttl, type, rdata text]: distinct (owner, type), any relative/absolute spelling
+    ctx.count("rrsets")
+    full = "".join(f"{o} {t} IN {ty} {rd}\n" for o, t, ty, rd in rows)
+    how, z = _outcome(lambda: dns.zone.from_text(full, origin=O, relativize=rel, check_origin=False))
+    if z is None:
+        ctx.fail("C09/rrsets/from_text-raises", f"{how} on {full!r}", rep)
+        return
+    want = zone_sig(z)
+
+    def sig_of(rrsets):
+        out = {}
+        for rs in rrsets:
+            out.setdefault(rs.name, {})[(int(rs.rdtype), int(rs.covers))] = (rs.ttl, frozenset(rs))
+        return out
+
+    def check(name, fn, expect=want):
+        how, got = _outcome(fn)
+        if got is None or sig_of(got) != expect:
+            ctx.fail(f"C09/rrsets/{name}/differs", f"read_rrsets {name} gave {how} {None if got is None else [r.to_text() for r in got]!r} "
+                     f"for {full!r} (origin {O}, relativize {rel})", rep)
+    R = dns.zonefile.read_rrsets
+    check("class-optional", lambda: R(full, rdclass=None, origin=O, relativize=rel))
+    check("class-optional/origin-str", lambda: R(full, rdclass=None, origin=O.to_text(), relativize=rel))
+    noclass = "".join(f"{o} {t} {ty} {rd}\n" for o, t, ty, rd in rows)
+    check("class-forced", lambda: R(noclass, origin=O, relativize=rel))
+    check("class-forced-by-name", lambda: R(noclass, rdclass="IN", origin=O, relativize=rel))
+    # TTL-less lines under default_ttl (0 included) = the explicit TTL
+    for dt in (c["dttl"], 0):
+        exp_text = "".join(f"{o} {dt} IN {ty} {rd}\n" for o, t, ty, rd in rows)
+        how2, z2 = _outcome(lambda: dns.zone.from_text(exp_text, origin=O, relativize=rel, check_origin=False))
+        if z2 is None:
+            continue
+        nottl = "".join(f"{o} {ty} {rd}\n" for o, t, ty, rd in rows)
+        check(f"default_ttl={dt}", lambda: R(nottl, default_ttl=dt, origin=O, relativize=rel), zone_sig(z2))
+        check(f"default_ttl-str={dt}", lambda: R(nottl, default_ttl=str(dt), origin=O, relativize=rel), zone_sig(z2))
+        check(f"forced-ttl={dt}", lambda: R(nottl, ttl=dt, origin=O, relativize=rel), zone_sig(z2))
+    # an explicit TTL wins over default_ttl
+    check("default_ttl-unused", lambda: R(noclass, default_ttl=77, origin=O, relativize=rel))
+    # forced type: one type for all rows
+    o1, t1, ty1, rd1 = rows[0]
+    one = f"{o1} {t1} IN {ty1} {rd1}\n"
+    how3, z3 = _outcome(lambda: dns.zone.from_text(one, origin=O, relativize=rel, check_origin=False))
+    if z3 is not None:
+        check("type-forced", lambda: R(f"{o1} {t1} {rd1}\n", rdtype=ty1, origin=O, relativize=rel), zone_sig(z3))
+    # no TTL anywhere: refused
+    how4, got4 = _outcome(lambda: R(f"{o1} {ty1} {rd1}\n", origin=O, relativize=rel))
+    if got4 is not None or not how4.startswith("err SyntaxError"):
+        ctx.fail("C09/rrsets/missing-ttl/accepted", f"read_rrsets without any TTL gave {how4}", rep)
+
+
 def mutate_text(rng, text):
     """malformed stream: local damage to a well-formed zone text"""
     if not text:
@@ -1763,6 +2018,58 @@ def generate(ctx: Ctx, scale: int, rng, thorough=False):
                   "text": l1(f"$ORIGIN {lab}\n$TTL 60\n@ IN SOA ns1 hostmaster 1 2 3 4 5\n@ NS ns1\n" + body).hex()}
             ctx.case(("relorigin-none", lab, body, rel), sample=None)
             eval_case(ctx, c0)
+
+    # --- $GENERATE whose owners straddle the zone cut: the zone origin lies below the current origin and only some of the
+    # generated owners are in the zone ("records outside the zone origin are ignored" x "$GENERATE versus its expansion")
+    for gi in range(n(12)):
+        base = rng.choice(ORIGINS[:3])
+        k = rng.choice([0, 1, 2, 3])
+        origin = [b"h%d" % k] + list(base)
+        rel = rng.chance(1, 2)
+        a = rng.choice([0, 0, 1, k])
+        b = a + rng.choice([2, 3, 4])
+        ttl = rng.choice(["", "300 "])
+        ty, rhs = rng.choice([("A", "10.0.0.$"), ("TXT", "v$"), ("PTR", "p$")])
+        pre = f"$TTL 60\n@ IN SOA ns1 hostmaster 1 2 3 4 5\n@ NS ns1\n$ORIGIN {name_text(base)}\n"
+        gl = f"$GENERATE {a}-{b} h$ {ttl}{ty} {rhs}"
+        post = rng.choice(["", "h%d TXT \"tail\"\n" % k])
+        ta = pre + gl + "\n" + post
+        tb = pre + "\n".join(expand_generate(gl, base)) + "\n" + post
+        c = {"kind": "spell", "what": "generate-straddles-zone-cut", "origin": hexl(origin), "rel": rel, "a": l1(ta).hex(), "b": l1(tb).hex()}
+        ctx.case(("genstraddle", ta, rel), sample=c)
+        eval_case(ctx, c)
+
+    # --- entry points and routes
+    for ri in range(n(36)):
+        origin = rng.choice(ORIGINS[:3])
+        recs = recs_to_case(gen_zone_records(rng, origin, MODEL_TYPES if rng.chance(1, 2) else ORACLE_TYPES, nnames=rng.choice([2, 3, 5]),
+                                             simple_names=rng.chance(1, 2)))
+        kw = {"sorted": rng.chance(1, 2), "relativize": rng.chance(1, 2), "nl": rng.choice(["n", "none", "bn"]),
+              "want_comments": rng.chance(1, 2), "want_origin": rng.chance(1, 2)}
+        c = {"kind": "routes", "origin": hexl(origin), "rel": rng.chance(1, 2), "rrel": rng.chance(1, 2), "recs": recs, "kw": kw,
+             "drop_origin": rng.chance(1, 2)}
+        ctx.case(("routes", ri, str(kw)), sample=c if len(recs) < 8 else None)
+        eval_case(ctx, c)
+    for di in range(n(12)):
+        origin = rng.choice(ORIGINS[:3])
+        body = "@ 3600 IN SOA ns1 hostmaster 1 2 3 4 5\n@ 3600 IN NS ns1\n" + "".join(
+            f"n{j} {rng.choice([60, 300, 86400])} IN {ty} {rd}\n" for j, (ty, rd) in enumerate(
+                rng.choice([("A", "192.0.2.1"), ("MX", "10 mail"), ("TXT", '"x y"'), ("NS", "ns2.elsewhere.invalid."), ("PTR", "@")])
+                for _ in range(rng.range(1, 4))))
+        c = {"kind": "directives", "origin": hexl(origin), "rel": rng.chance(1, 2), "body": l1(body).hex()}
+        ctx.case(("directives", body, di), sample=c)
+        eval_case(ctx, c)
+    for qi in range(n(24)):
+        origin = rng.choice(ORIGINS[:3])
+        o_txt = name_text(origin)
+        rows = []
+        for j in range(rng.range(1, 5)):
+            ty, rd = rng.choice([("A", "192.0.2.%d" % j), ("MX", "10 mail"), ("MX", "0 @"), ("TXT", '"x y"'), ("NS", "ns2.elsewhere.invalid."),
+                                 ("PTR", "t%d" % j), ("NS", f"ns.{o_txt}")])
+            rows.append([rng.choice([f"r{j}", f"r{j}.s", f"r{j}.{o_txt}", "@" if j == 0 else f"q{j}"]), rng.choice([0, 1, 300, 86400]), ty, rd])
+        c = {"kind": "rrsets", "origin": hexl(origin), "rel": rng.chance(1, 2), "rows": rows, "dttl": rng.choice([5, 3600, 2**31 - 1])}
+        ctx.case(("rrsets", str(rows), qi), sample=c)
+        eval_case(ctx, c)
 
     # --- zones: write then read
     styles = pairwise(rng.fork(3), KNOBS)
